@@ -20,7 +20,7 @@ def run(ctx, idx):
     ctx.rule("C04.a", "For each class with effective is_fuzzy=True and Data output every normal return value carries range Clamped(-1, 1): it is the value of a clamp with constant bounds -1 and 1 and no arithmetic between the clamp and the return.")
     ctx.rule("C04.b", "insure_fuzzy bounds both sides on every path and returns the clamped object (summary from its body on a symbolic argument).")
     ctx.rule("C04.c", "The set of fuzzy producers equals the reference set of 14 names; each declares is_fuzzy as a literal True.")
-    ctx.rule("C04.d", "Every division with an array operand in a fuzzy producer has a Masked operand (A3/A4: zero denominators become missing cells, not infinities).")
+    ctx.rule("C04.d", "Every division with an array operand in a fuzzy producer has a Masked operand (A3/A4: zero denominators become missing cells, not infinities); a quotient of two scalars whose divisor is computed from the data is never combined with a whole array (nothing would be masked and nan survives the clamp).")
     found = set()
     n_ret = 0
     for key, (d, r) in sorted(R.results(idx).items()):
@@ -54,6 +54,15 @@ def run(ctx, idx):
             ctx.ob("C04.d", con, d.module.rel, line, ok,
                    "division has a masked operand: zero divisors become missing cells" if ok else
                    "array division without a masked operand: a zero divisor yields inf/nan that the clamp cannot repair")
+    for key, (d, r) in sorted(R.results(idx).items()):
+        if d.is_fuzzy is not True or not d.is_data():
+            continue
+        nf = [f for f in r.findings if f[0] == "nonfinite"]
+        con = "%s.execute::no-scalar-quotient-over-the-array" % d.key
+        if nf:
+            ctx.violate("C04.d", con, d.module.rel, nf[0][1], nf[0][2])
+        else:
+            ctx.hold("C04.d", con, d.module.rel, d.execute.node.lineno, "no data-dependent scalar quotient is spread over a whole array", nontrivial=False)
     ctx.floor("C04.a", "return sites of fuzzy producers", n_ret, 14)
     missing = FUZZY_PRODUCERS - found
     extra = found - FUZZY_PRODUCERS
